@@ -192,14 +192,22 @@ func checkC16(c *Ctx) {
 	useAfterRelease(c, "USE-AFTER-RELEASE", []string{pParser, pRT, pRT2, pEngine, pFuncs, pInput})
 	poolPairing(c, "USE-AFTER-RELEASE")
 
-	// pooled task does not escape
+	// pooled task does not escape: wherever a task is taken from the pool (Run/RefRun/Check themselves, or a helper
+	// they share), it is stored nowhere but in locals and handed to no goroutine
+	get := t.Func(pRT, "GetContext")
 	for _, spec := range []struct{ pkg, typ, m string }{{pRT, "Script", "Run"}, {pRT, "Script", "RefRun"}, {pRT, "Script", "Check"}} {
 		fn := t.Method(spec.pkg, spec.typ, spec.m)
-		if fn == nil {
+		if fn == nil || get == nil {
 			r.Undecided("POOL-NO-ESCAPE", spec.typ+"."+spec.m, "", "unresolved anchor")
 			continue
 		}
-		get := t.Func(pRT, "GetContext")
+		r.Ob("POOL-NO-ESCAPE", fmt.Sprintf("%s works on a task from the pool", relName(fn)), t.Pos(fn.Pos()), findCallThrough(fn, get) != nil, "GetContext() in the function or in the helper it delegates to")
+	}
+	nAcq := 0
+	for _, fn := range t.PkgFuncs(pRT) {
+		if fn == get {
+			continue
+		}
 		escaped := ""
 		n := 0
 		allInstrs(fn, func(in ssa.Instruction) {
@@ -227,8 +235,14 @@ func checkC16(c *Ctx) {
 				}
 			}
 		})
-		r.Ob("POOL-NO-ESCAPE", fmt.Sprintf("%s task from the pool stays local", relName(fn)), t.Pos(fn.Pos()), escaped == "" && n > 0, "pooled task "+escaped)
+		if n == 0 {
+			continue
+		}
+		nAcq++
+		r.Fn(relName(fn))
+		r.Ob("POOL-NO-ESCAPE", fmt.Sprintf("%s task from the pool stays local", relName(fn)), t.Pos(fn.Pos()), escaped == "", "pooled task "+escaped)
 	}
+	r.FloorN("functions taking a task from the pool", nAcq, 2)
 }
 
 // onlyLocalUses: a heap-allocated local (captured variable) that is only loaded, stored and captured by closures.
